@@ -441,6 +441,37 @@ func runC19(c *core.Ctx) core.Meta {
 		}
 	}
 
+	// ---------------- R19.9 a chunk goes to the memory controller that owns the chunk's address ----------------
+	st9 := c.Rule("R19.9", "every memory request the page migration controller builds is addressed (WithDst(MemCtrlFinder.Find(a))) with the very address it carries (WithAddress(a)): a page can be spread over several memory controllers (banks interleaved finer than a page), so a request routed by the page's base address reaches a bank that does not own the chunk; the chunks overwrite that bank's part of the page and the owning banks never receive their data", 2)
+	p.Instrs(func(fn *ssa.Function, in ssa.Instruction) {
+		cc := core.CallOf(in)
+		if cc == nil || cc.StaticCallee() == nil || cc.StaticCallee().Name() != "WithDst" || len(cc.Args) < 2 {
+			return
+		}
+		find, ok := cc.Args[len(cc.Args)-1].(*ssa.Call)
+		if !ok || !find.Call.IsInvoke() || find.Call.Method.Name() != "Find" || len(find.Call.Args) != 1 {
+			return
+		}
+		// the WithAddress call of the same builder chain: in the same block
+		var carried ssa.Value
+		for _, i2 := range in.Block().Instrs {
+			if c2 := core.CallOf(i2); c2 != nil && c2.StaticCallee() != nil && c2.StaticCallee().Name() == "WithAddress" {
+				carried = c2.Args[len(c2.Args)-1]
+			}
+		}
+		if carried == nil {
+			return
+		}
+		st9.Instances++
+		c.MarkAnalysed(fn)
+		okA := core.StripConv(find.Call.Args[0]) == core.StripConv(carried) || prov.Of(find.Call.Args[0]) == prov.Of(carried)
+		st9.Ob(okA)
+		st9.Sample("%s: destination looked up with the address the request carries: %v", core.FuncName(fn), okA)
+		if !okA {
+			c.ReportAt("R19.9", fn, in.Pos(), "dst-for-other-address", "the request carries address "+short(prov.Of(carried))+" but its destination is the memory controller of "+short(prov.Of(find.Call.Args[0]))+": when a page is interleaved over several controllers the chunk is written to (read from) a bank that does not own it")
+		}
+	})
+
 	// ---------------- R19.8 the one-page gate is reopened by every acknowledgement ----------------
 	st8 := c.Rule("R19.8", "the driver sends one page-migration request to a command processor at a time: the function that sends it closes a gate (a boolean field of the driver set after the successful Send and tested before it), and the handler of the command processor's acknowledgement (the driver function that takes a *PageMigrationRspToDriver) reopens the gate on every path to its return, helpers expanded. If the last acknowledgement of a request leaves the gate closed, the next migration request re-homes its page in the page table, queues the copy and never sends it: the page is mapped to a frame its contents were never copied to and no completion is reported", 2)
 	{
